@@ -198,7 +198,8 @@ pub fn nonbinding_rooms(r: &mut Rng, inst: &Inst) -> Vec<usize> {
         }
     }
     let n = inst.courses.len() + r.below(3);
-    (0..n).map(|_| top + r.below(3)).collect()
+    let exact = r.chance(1, 2);
+    (0..n).map(|_| if exact { top } else { top + r.below(3) }).collect()
 }
 
 pub fn g_solve_case(inst: &Inst, k: usize, run: &SRun, better: &Option<Vec<Option<usize>>>) -> String {
@@ -282,7 +283,7 @@ pub fn run(plan: SPlan, shards: usize, outdir: &str, replay: Option<String>) {
         for id in 0..plan.count {
             let mc = 1 + (plan.max_c - 1) * (id + 1) / plan.count.max(1);
             let mp = 1 + (plan.max_p - 1) * (id + 1) / plan.count.max(1);
-            let mut inst = gen_inst(&mut r, mc.max(1), mp.max(1), plan.rooms_mode);
+            let mut inst = gen_inst(&mut r, mc.max(1), mp.max(1), if plan.c17 { 3 } else { plan.rooms_mode });
             if plan.c17 {
                 inst.rooms = None;
             }
